@@ -224,7 +224,7 @@ PROMOTE = {
             lemma_key_component(a, ks(s, h), kc1(s, h), kc2(s, h), kc3(s, h), kc4(s, h), 0u64, x ^ y);
         }""",
     }},
-    'expect': {'loops': ['while'], 'returns': 0},
+    'expect': {'loops': ['while']},
 }
 
 EP = {
@@ -235,7 +235,7 @@ EP = {
             Some(t) => ep_geom(board.pawn_double_move, piece.color, row as int, col as int, t) && row == (if piece.color == White { 5int } else { 6int }),
             None => forall|t: Point| !(#[trigger] ep_geom(board.pawn_double_move, piece.color, row as int, col as int, t) && row == (if piece.color == White { 5int } else { 6int })),
         }"""],
-    'expect': {'loops': [], 'returns': 3},
+    'expect': {'loops': []},
 }
 
 FR = 'let fr = square_cords.0 as int; let fc = square_cords.1 as int; let tr = mov.0 as int; let tc = mov.1 as int;'
@@ -507,7 +507,7 @@ GMFP = {
             }
         }
     }""" % {'LO': LO},
-    'expect': {'loops': ['while'], 'returns': 0},
+    'expect': {'loops': ['while']},
 }
 
 P = ('C01', 'C02', 'C05', 'C13')
